@@ -112,6 +112,7 @@ WHAT = {
     "future-kept-for-slot-overwritten-by-other-leader": "{c} keeps a submit() future under its slot number after the entry was overwritten by another leader; the future resolves with the slot of a different command",
     "committed-entry-truncated-by-accept-of-other-ballot": "{c} truncates its log from a slot it already reported committed when an Accept of another ballot arrives (commit_index goes back, the decided command changes)",
     "member-views-differed/term-from-local-counter": "LeaderElection terms are local counters (+1 per own election / per victory received, the announced term is ignored): participants whose member views differ for a while report different leaders for one term number",
+    "member-views-differed/leader-replaced-by-heartbeat-carrying-equal-term": "LeaderElection accepts a LeaderHeartbeat whose (sender-local) term equals its own term from a different leader: one participant reports two different leaders for one of its term values (terms are local counters; seen only while member views differ)",
     "member-views-differed/announced-terms-collide": "LeaderElection: two participants with different member views each win an election and announce the same term number (local counters), followers adopt both (term, leader) pairs",
 }
 SLUG = {
@@ -129,6 +130,7 @@ SLUG = {
     "committed-entry-truncated-by-accept-of-other-ballot": "truncate-committed",
     "member-views-differed/term-from-local-counter": "local-terms",
     "member-views-differed/announced-terms-collide": "local-terms-announced",
+    "member-views-differed/leader-replaced-by-heartbeat-carrying-equal-term": "equal-term-heartbeat",
 }
 CS = {"PaxosNode": "paxos", "MultiPaxosNode": "multipaxos", "FlexiblePaxosNode": "flexpaxos", "LeaderElection": "election"}
 
